@@ -11,7 +11,7 @@ fn good_path(rng: &mut Rng) -> String {
 }
 fn dep(rng: &mut Rng, bad: bool) -> String {
     if bad {
-        return rng.pick_str(&["oops", "a>1>2:devel/a", "foo-[0-9]*:bad", "x::devel/a", "{a:devel/a"]).to_string();
+        return rng.pick_str(&["oops", "a>1>2:devel/a", "foo-[0-9]*:bad", "x::devel/a", "{a:devel/a", "b>=1:cat/..", "b>=1:../../cat/.", "b-[0-9]*:devel/a:"]).to_string();
     }
     let p = match rng.below(3) { 0 => patterns::dewey(rng).0, 1 => format!("{}-[0-9]*", patterns::base(rng)), _ => format!("{{{},{}}}-[0-9]*", "a", "b") };
     let p: String = p.chars().filter(|c| !c.is_whitespace() && *c != ':').collect();
@@ -19,6 +19,10 @@ fn dep(rng: &mut Rng, bad: bool) -> String {
 }
 
 /// lines of a file with `records` records; `fault`: 0 none, 1 missing PKGNAME block, 2 bad dependency, 3 bad location
+pub fn err_kind(rng: &mut Rng) -> &'static str {
+    rng.pick_str(&["Other", "Other", "WouldBlock", "TimedOut", "BrokenPipe", "Interrupted", "UnexpectedEof"])
+}
+
 pub fn lines(rng: &mut Rng) -> (Vec<String>, usize, bool) {
     let records = if rng.chance(1, 10) { rng.range(10, 30) } else { rng.range(0, 5) };
     let fault = if rng.chance(1, 4) { rng.range(1, 3) } else { 0 };
@@ -34,7 +38,7 @@ pub fn lines(rng: &mut Rng) -> (Vec<String>, usize, bool) {
         for _ in 0..nkeys {
             let k = KEYS[rng.range(1, 14)];
             let v = match k {
-                "PKG_LOCATION" => if fault == 3 && r == fault_rec { rng.pick_str(&["bad", "a/b/c", "../x/y", ""]).to_string() } else { good_path(rng) },
+                "PKG_LOCATION" => if fault == 3 && r == fault_rec { rng.pick_str(&["bad", "a/b/c", "../x/y", "", "cat/..", "./pkg", "../../cat/..", "cat/."]).to_string() } else { good_path(rng) },
                 "ALL_DEPENDS" => (0..rng.below(4)).map(|_| dep(rng, false)).collect::<Vec<_>>().join(rng.pick_str(&[" ", "  ", "\t"])),
                 "SCAN_DEPENDS" => (0..rng.below(4)).map(|i| format!("/usr/pkgsrc/mk/{}-{}.mk", tag, i)).collect::<Vec<_>>().join(" "),
                 "MULTI_VERSION" => (0..rng.below(3)).map(|i| format!("PYTHON_VERSION_REQD={}{}", tag, i)).collect::<Vec<_>>().join(" "),
